@@ -21,7 +21,7 @@ ANCHORS = ["decaylanguage.dec.dec:DecFileParser.expand_decay_modes", "decaylangu
            "decaylanguage.utils.utilities:DescriptorFormat.format_descriptor"]
 WORKERS = {"quick": 4, "thorough": 16}
 WTESTS = {"groups": ['parser_chains'], "tests": ['tests/dec', 'tests/decay']}
-REQUIRED = {"product>=2x2-in-one-line": 30, "line-with>=3-multi-mode-daughters": 10, "line-without-daughters": 20, "decaying-alias-at-depth>=2": 10,
+REQUIRED = {"former-alias-name-now-a-particle-with-a-table": 5, "expand-after-a-refused-descriptor-format": 10, "product>=2x2-in-one-line": 30, "line-with>=3-multi-mode-daughters": 10, "line-without-daughters": 20, "decaying-alias-at-depth>=2": 10,
             "decaying-alias-top": 10, "non-decaying-alias": 20, "blockless-alias-of-a-decaying-particle-as-daughter": 20, "empty-block-daughter": 20, "same-decaying-daughter-twice": 20, "paths>=50": 20,
             "corpus-mother": 20, "expand-after-chains-with-stable-set": 20, "expand-after-editing-returned-values": 20, "two-instances-queried-alternately": 20, "two-decaying-names-of-one-particle": 5, "C10.expand.count_and_paths": 100}
 ASSUMPTIONS = ["names have balanced parentheses and no blanks; table sets are acyclic", "default descriptor format while expanding"]
@@ -104,6 +104,22 @@ def check(ctx, p, T, m, al, wit, workload):
         w["before_edit"] = True
         snapshot.edit_returned_values(p, [m])
         contracts.drain()
+    if ctx.rng.random() < 0.15:
+        # earlier in the process somebody asked for a descriptor format the library refuses: the refusal changes nothing for later expansions
+        from decaylanguage.utils.utilities import DescriptorFormat  # noqa: PLC0415
+
+        bad = ctx.rng.choice([("{mother} ==> X", "({mother} ==> {daughters})"), ("{mother} -> {daughters}", "{mother}"), ("{mother} -> {daughters} {extra}", "({mother} -> {daughters})"), ("M", "D")])
+        w["refused_format_before"] = list(bad)
+        try:
+            if ctx.rng.random() < 0.5:
+                with DescriptorFormat(*bad):
+                    pass
+            else:
+                DescriptorFormat.set_config(*bad)
+        except (ValueError, KeyError, IndexError):
+            ctx.hit("expand-after-a-refused-descriptor-format")
+        else:
+            DescriptorFormat.set_config("{mother} -> {daughters}", "({mother} -> {daughters})")
     ok, got = ctx.guard("expand", w, p.expand_decay_modes, m)
     for v in contracts.drain():
         ctx.violate(v["mechanism"], v["message"], w)
@@ -144,6 +160,23 @@ def run(ctx):
                 p0, T0, parts0, al0, wit0 = prev
                 check(ctx, p0, T0, parts0[j % len(parts0)], al0, {**wit0, "after_other_instance": text}, "earlier-instance")
         prev = (res[0], T, parts, exp["aliases"], wit)
+        if exp["aliases"] and it % 3 == 0:
+            # the next file of the process: the same text without its Alias statements, so what were alias names are now particles of their own
+            st2 = [x for x in stmts if x["k"] != "Alias"]
+            try:
+                exp2 = L.expected(st2)
+            except Exception:  # noqa: BLE001  - the model language refuses the reduced file (e.g. a conjugation needing the alias): not a case
+                exp2 = None
+            if exp2 is not None:
+                text2 = L.render(st2)
+                T2 = {m: [{"bf": ln["bf"], "fs": ln["fs"], "model": ln["model"], "model_params": ln["params"]} for ln in lines] for m, lines in {**exp2["tables"], **exp2["derived"]}.items()}
+                wit2 = {"kind": "generated", "text": text2, "after_other_instance": text}
+                ok2, res2 = ctx.guard("parse", wit2, snapshot.make_parser, text2)
+                former = [a for a in exp["aliases"] if a in T2 and contracts._reach_acyclic(T2, a)]
+                if ok2 and former:
+                    ctx.hit("former-alias-name-now-a-particle-with-a-table")
+                    for m in former[:3] + [x for x in parts[:2] if x in T2]:
+                        check(ctx, res2[0], T2, m, exp2["aliases"], wit2, "gen")
         if len(ctx.violations) >= ctx.max_violations:
             return
     from . import C01  # noqa: PLC0415
@@ -174,7 +207,7 @@ def replay(ctx, w):
     if w["kind"] == "generated":
         stmts = L.read(w["text"], L.published_models())
         exp = L.expected(stmts)
-        T = {m: [{"bf": ln["bf"], "fs": ln["fs"], "model": ln["model"], "model_params": ln["params"]} for ln in lines] for m, lines in exp["tables"].items()}
+        T = {m: [{"bf": ln["bf"], "fs": ln["fs"], "model": ln["model"], "model_params": ln["params"]} for ln in lines] for m, lines in {**exp["tables"], **exp["derived"]}.items()}
         p, _ = snapshot.make_parser(w["text"])
         al = exp["aliases"]
     else:
